@@ -594,8 +594,9 @@ fn w16() -> impl Strategy<Value = i16> {
 pub fn raw_kytea() -> impl Strategy<Value = RawKytea> {
     (
         (0u32..=3, 1u8..=5, 1u8..=5, 1u8..=4, 0u8..=8),
-        vec((vec(any::<u16>(), 1..=5), vec(w16(), 12), 0u8..3), 1..=15),
-        vec((vec(any::<u16>(), 1..=4), vec(w16(), 12), 0u8..3), 1..=10),
+        // (now and then a model without any character n-gram, or without any type n-gram)
+        prop_oneof![9 => vec((vec(any::<u16>(), 1..=5), vec(w16(), 12), 0u8..3), 1..=15), 1 => Just(vec![])],
+        prop_oneof![9 => vec((vec(any::<u16>(), 1..=4), vec(w16(), 12), 0u8..3), 1..=10), 1 => Just(vec![])],
         vec((vec(any::<u16>(), 1..=6), any::<u8>()), 0..=8),
         vec(w16(), 3 * 4 * 8 + 4),
         vec(w16(), 1..=3),
@@ -639,6 +640,14 @@ pub fn raw_kytea() -> impl Strategy<Value = RawKytea> {
 const TEXT_CHARS: &[char] = &['a', 'b', '1', 'あ', 'の', 'ア', 'ー', '火', '星', '𠀋', 'é', '。'];
 const TYPE_LETTERS: &[char] = &['D', 'R', 'H', 'T', 'K', 'O'];
 
+fn root_only<T>(n_dicts: u8) -> KDict<T> {
+    KDict {
+        n_dicts,
+        states: vec![KState { failure: 0, gotos: vec![], outputs: vec![], is_branch: 0 }],
+        entries: vec![],
+    }
+}
+
 /// Builds a trie over `words` with shuffled state numbers (state 0 stays the root), arbitrary
 /// failure links and extra suffix outputs.
 fn build_trie<T: Clone>(
@@ -647,7 +656,12 @@ fn build_trie<T: Clone>(
     shuffle: &[u16],
 ) -> KDict<T> {
     if words.is_empty() {
-        return KDict::absent(n_dicts);
+        // "nothing of this kind" has two encodings: no dictionary at all, and a trie that
+        // consists of its root and holds no entry
+        if shuffle.first().copied().unwrap_or(0) & 2 == 0 {
+            return KDict::absent(n_dicts);
+        }
+        return root_only(n_dicts);
     }
     // natural numbering first
     struct Node {
@@ -790,8 +804,10 @@ pub fn resolve_kytea(raw: &RawKytea) -> KyteaCase {
     }
     let n_dict_vec = 3 * raw.dict_n as usize * raw.n_dicts as usize;
     let lookup = KLookup {
-        char_dict: build_trie(0, &cng, &raw.shuffle),
-        type_dict: build_trie(0, &tng, &raw.shuffle),
+        // the converter needs both n-gram dictionaries to be there: a model without n-grams of
+        // one kind has a trie of the root alone
+        char_dict: if cng.is_empty() { root_only(0) } else { build_trie(0, &cng, &raw.shuffle) },
+        type_dict: if tng.is_empty() { root_only(0) } else { build_trie(0, &tng, &raw.shuffle) },
         self_dict: KDict::absent(0),
         dict_vec: raw.dict_vec[..n_dict_vec.min(raw.dict_vec.len())].to_vec(),
         biases: raw.biases.clone(),
